@@ -37,11 +37,35 @@ var commonAssumptions = []string{
 func checks() []Check {
 	return []Check{
 		{
+			ID: "C20", Level: "exploration",
+			Rule: "bounded-exhaustive enumeration of the integer domain (every int of the stated ranges, all power-of-two neighbourhoods up to 2^62); expectations derived from interval enumeration (loop-based reference); distinct_nontrivial = distinct inputs > 2 (math) / all inputs (index, gfd), counted",
+			Assumptions: commonAssumptions,
+			Units: []Unit{
+				{Name: "math", Pkg: "pkg/math", Test: "TestMC_C20", Weight: 16},
+				{Name: "bsindex", Pkg: "pkg/pool/byteslice", Test: "TestMC_C20idx", Weight: 16},
+				{Name: "gfd", Pkg: "internal/gfd", Test: "TestMC_C20gfd", Weight: 1},
+			},
+		},
+		{
 			ID: "C09", Level: "model_checking",
 			Rule: "explicit-state BFS over operation sequences on the real ring.Buffer (successor = fresh instance + replay + 1 op); a state is distinct by (size,r,w,isEmpty); distinct_nontrivial = distinct states reached; evaluations = transitions executed, each compared step by step with a []byte FIFO reference",
 			Assumptions: append([]string{"byte values are sequence numbers mod 251; the code never branches on byte values, so states equal up to renumbering have equal futures",
 				"reader/writer behaviours are scripts of (n,err) answers with n in {0,1,len-1,len}"}, commonAssumptions...),
 			Units: []Unit{{Name: "ring", Pkg: "pkg/buffer/ring", Test: "TestMC_C09", Weight: 16, BudgetQuick: 240, BudgetThorough: 1500}},
+		},
+		{
+			ID: "C10", Level: "model_checking",
+			Rule: "explicit-state BFS over operation sequences on the real elastic.Buffer / elastic.RingBuffer (and a pair sharing the ring pool); a state is distinct by (static limit, ring size/r/w/isEmpty or nil, list node lengths); every transition compared with a flat FIFO reference",
+			Assumptions: append([]string{"byte values are per-instance hashed sequence numbers", "each scenario runs single-threaded (GOMAXPROCS=1) so that the shared sync.Pool of rings behaves deterministically; the pool is drained before each instance",
+				"narrow reading: elastic.Buffer.WriteTo returning ring.ErrIsEmpty without transferring anything while only the list part holds data loses nothing and is not counted as a violation"}, commonAssumptions...),
+			Units: []Unit{{Name: "elastic", Pkg: "pkg/buffer/elastic", Test: "TestMC_C10", Shards: 7, ShardsThorough: 9, BudgetQuick: 240, BudgetThorough: 1500, Env: []string{"GOMAXPROCS=1"}}},
+		},
+		{
+			ID: "C11", Level: "model_checking",
+			Rule: "explicit-state BFS over operation sequences on the real linkedlist.Buffer; a state is distinct by its list of node lengths; every transition is compared with a [][]byte reference (content, Buffered, Len, IsEmpty, copy semantics)",
+			Assumptions: append([]string{"byte values are per-instance hashed sequence numbers; the code never branches on byte values",
+				"segmentation of bytes stored by ReadFrom is unspecified and adopted from the implementation after checking sums"}, commonAssumptions...),
+			Units: []Unit{{Name: "linkedlist", Pkg: "pkg/buffer/linkedlist", Test: "TestMC_C11", Weight: 16, BudgetQuick: 240, BudgetThorough: 1500}},
 		},
 	}
 }
